@@ -100,10 +100,10 @@ func (c *Ctx) Pick(q, t int) int {
 
 // K is the handle of one case.
 type K struct {
-	c     *Ctx
-	Index int
-	Rng   *rand.Rand
-	Case  any // set by the body as soon as the case is known: it is what a violation / sample reports
+	c      *Ctx
+	Index  int
+	Rng    *rand.Rand
+	Case   any // set by the body as soon as the case is known: it is what a violation / sample reports
 	failed bool
 }
 
@@ -533,7 +533,9 @@ func runParent(p *Prop, tier string, seed int64, only int) int {
 		if len(samples) > 6 {
 			samples = samples[:6]
 		}
-		coverage["evaluations"] = merged.Evaluations
+		if _, set := coverage["evaluations"]; !set {
+			coverage["evaluations"] = merged.Evaluations
+		}
 		coverage["distinct_nontrivial"] = len(merged.Keys)
 		coverage["rule"] = p.Rule
 		coverage["samples"] = samples
